@@ -142,6 +142,9 @@ def check_emit(ctx, e, sz):
             results.append(("f+=c", h, [x + c for x in fv]))
             h = f.copy(); h *= c
             results.append(("f*=c", h, [x * c for x in fv]))
+            # neutral scalars: same values as f, but still a NEW factor (sum([f]) and `acc = 0; acc += f` start from 0 + f)
+            results += [("f+0", f + 0, list(fv)), ("0+f", 0 + f, list(fv)), ("f*1", f * 1, list(fv)), ("1*f", 1 * f, list(fv)),
+                        ("f-0", f - 0, list(fv)), ("f/1", f / 1, list(fv)), ("f+0.0", f + 0.0, list(fv)), ("sum([f])", sum([f]), list(fv))]
             exact = True
         else:
             want = expected(op, e, fv, gv)
@@ -169,6 +172,21 @@ def check_emit(ctx, e, sz):
             ctx.violation("Factor algebra differs from FactorAlgebra.tla: " + bad, info, {"kind": "algebra", "op": op})
     if not np.array_equal(f.values.reshape(-1), fv) or not np.array_equal(g.values.reshape(-1), gv):
         ctx.violation("operation %s modified its operands" % op, info, {"kind": "aliasing", "op": op})
+    # a pure operation hands back a factor of its own: writing into the result in place must not reach an operand
+    # (arithmetic only: transpose / expand / project legitimately return numpy views)
+    if op in ("scalar", "add", "sub", "mul", "div", "logaddexp"):
+        for lab, r, _ in results:
+            if isinstance(r, Factor) and not lab.startswith(("f+=", "f*=")):
+                try:
+                    r.values[...] = r.values + 1000.0
+                except Exception:
+                    continue
+                if not np.array_equal(f.values.reshape(-1), fv) or not np.array_equal(g.values.reshape(-1), gv):
+                    ctx.violation("writing into the result of %s changes an operand (the result aliases it; in-place and pure forms then disagree)" % lab,
+                                  info, {"kind": "aliasing", "op": op})
+                    f.values.reshape(-1)[...] = fv
+                    g.values.reshape(-1)[...] = gv
+                    break
     # CliqueVector arithmetic clique by clique, derived from the same addressing map
     if op == "add" and tuple(e["f"]) != tuple(e["g"]):
         try:
